@@ -859,7 +859,7 @@ func c08Once(q string, data []core.SeriesSpec, w core.Window) (ran, nontrivial b
 		if n := f.Counter["false"]; n != 1 || f.Counter["true"] != 0 {
 			return true, false, "counter", fmt.Sprintf("fallback disabled: counter %v", f.Counter)
 		}
-		if s, d := core.Diff(o.Res, f.Res, false); s != "" {
+		if s, d := core.Diff(o.Res, f.Res, false); s != "" && !(hasK(q) && tieEqual(o.Res, f.Res)) {
 			return true, true, "fallback-off:" + s, "result differs from the one with fallback enabled: " + d
 		}
 	}
